@@ -28,7 +28,7 @@ Variable rank : schema -> nat.
 Variable R : nat.
 Hypothesis G : guarded defs W rank R.
 (* every schema of W that is not a reference (the siblings of $ref are ignored by both sides) is of the clean class *)
-Hypothesis Hclean : forall s, W s -> s_ref s = None -> local_clean0 fin allow_null allow_arr OR s.
+Hypothesis Hclean : forall s, W s -> s_ref s = None -> local_clean0 fin allow_null OR s.
 (* the one condition that depends on the value - where a format sits next to a non-numeric type list, the value is one the
    list accepts (the type.go:200 shortcut) - holds along the validation: F is closed under the visits both sides make *)
 Variable F : schema -> goval -> Prop.
@@ -149,7 +149,7 @@ Hypothesis Hord : forall a b, finP fin_b a -> finP fin_b b -> n_lt N a b = negb 
 Hypothesis Heq_sym : forall a b, finP fin_b a -> finP fin_b b -> n_eq N a b = n_eq N b a.
 
 Definition lc_b (s : schema) : bool :=
-  match s_ref s with Some _ => true | None => local_clean0_b fin_b allow_null allow_arr OR s end.
+  match s_ref s with Some _ => true | None => local_clean0_b fin_b allow_null OR s end.
 
 Definition fmt_fits_b (s : schema) (d : goval) : bool :=
   Z.eqb (s_format s) 0 || (contains k_number (s_types s) || contains k_integer (s_types s)) ||
